@@ -21,7 +21,12 @@ type World struct {
 
 	MemberProxy, OutsiderProxy *neoproxy.Proxy
 	Member, Outsider           *irsetup.Env
+
+	mk func(key *keys.PrivateKey) (*neoproxy.Proxy, *irsetup.Env, error)
 }
+
+// NewEnv attaches one more set of processors (own recording proxy) to the chain.
+func (w *World) NewEnv(key *keys.PrivateKey) (*neoproxy.Proxy, *irsetup.Env, error) { return w.mk(key) }
 
 // CommitteeKey is the only committee/alphabet key of the world.
 func CommitteeKey() *keys.PrivateKey { return irfix.Key(1) }
@@ -49,6 +54,7 @@ func NewWorld(allowEC bool, prepare func(w *World) error) (*World, error) {
 			return fail(fmt.Errorf("prepare: %w", err))
 		}
 	}
+	w.mk = func(key *keys.PrivateKey) (*neoproxy.Proxy, *irsetup.Env, error) { return nil, nil, nil }
 	mk := func(key *keys.PrivateKey) (*neoproxy.Proxy, *irsetup.Env, error) {
 		p, err := neoproxy.New(w.Chain.RPC)
 		if err != nil {
@@ -65,6 +71,7 @@ func NewWorld(allowEC bool, prepare func(w *World) error) (*World, error) {
 		}
 		return p, e, nil
 	}
+	w.mk = mk
 	if w.MemberProxy, w.Member, err = mk(CommitteeKey()); err != nil {
 		return fail(fmt.Errorf("member env: %w", err))
 	}
